@@ -132,6 +132,17 @@ def main(argv=None):
     HINTY = ('#proof-hint', '#closure-postcondition')
     hints = [f for f in fails if f.obligation.endswith(HINTY)]
     fails = [f for f in fails if not f.obligation.endswith(HINTY)]
+    # (round 11) a closure whose spliced postcondition no longer follows from its body (e.g. a filter predicate that was widened): the
+    # clauses of that function rest on it, so they are undecided and go to the witness search - a failing input replayed on the real
+    # code makes a VIOLATION, without one the check stays inconclusive
+    for h in hints:
+        if h.obligation.endswith('#closure-postcondition'):
+            fid_ = h.obligation.rsplit('#', 1)[0]
+            for ob_ in sorted({o.split(':', 1)[1] for o in obligations if o.split(':', 1)[1].startswith(fid_ + '#')}):
+                if ob_.endswith(('#safety', '#proof-hint', '#closure-postcondition')) or any(u_.obligation == ob_ for u_ in undecided) or any(f_.obligation == ob_ for f_ in fails):
+                    continue
+                undecided.append(Failure(h.unit, ob_, 'proof undecided: the postcondition spliced onto a closure of this function does not follow from the closure body any more (' + h.message[:120] + ')',
+                                         list(h.exits), h.detail, props=[pid]))
     if hints and not fails:
         class _H:
             unit = hints[0].unit
